@@ -539,6 +539,7 @@ FAULTS = {
     "ArityNamedFew": lambda r: app("proc-one"),
     "ArityRest": lambda r: app(lam(["fa", "fb"], [var("fa")], rest="fr"), lit(1)),
     "ArityPrim": lambda r: app("cons", lit(1)),
+    "ArityThunk": lambda r: app(lam([], [lit(r.randint(0, 9))]), lit(5)),
     "ArityApply": lambda r: app("apply", var("proc-one"), quote(vlist([vint(1), vint(2)]))),
     "UnboundRead": lambda r: var("undefined-variable"),
     "UnboundAssign": lambda r: set_("undefined-variable", lit(1)),
